@@ -269,4 +269,52 @@ example :
   obtain ⟨h1, fuel, r, h2, h3⟩ := h
   exact ⟨_, fuel, r, h1, h2, h3⟩
 
+/-! ## inclusion: where "pasting the file's contents" and the block structure differ -/
+
+section FileBoundary
+open RsslVerif.Model.Include RsslVerif.Lemmas.MacroApi RsslVerif.Lemmas.Include
+
+/-- entry file: `#define F(X) X` / `#include "f1"` / `(1)` -/
+def boundaryMain : List Line :=
+  [.define (loc [.ws, .id "F", .lparen, .id "X", .rparen, .ws, .id "X"]), .incl "f1",
+    .text (loc [.lparen, .int "1", .rparen])]
+/-- the header `f1`: `F` -/
+def boundaryHeader : List Line := [.text (loc [.id "F"])]
+/-- the entry file with the header's line pasted in place of the directive -/
+def boundaryPasted : List Line :=
+  [.define (loc [.ws, .id "F", .lparen, .id "X", .rparen, .ws, .id "X"]), .text (loc [.id "F"]),
+    .text (loc [.lparen, .int "1", .rparen])]
+def boundaryHandler (main : List Line) : Handler := fun n =>
+  if n = "main" then some ("main", main) else if n = "f1" then some ("f1", boundaryHeader) else none
+
+/-- **invocation-spans-file-boundary** (negation witness for the plain textual reading of "`#include` is equivalent to
+pasting the file's contents"; visible on its own since fix f08088c -- before it the pasted program gave `F ( 1 )` too,
+because of the line end).  The header ends in the name of a function-like macro and the including file continues with
+`(1)`: rssl expands the text before an `#include`, the included file and the text after it as separate blocks and
+gives `F ( 1 )`; the program with the header's line pasted in gives `1`.  `include_is_paste` is the true statement: the
+pasted lines stand between two block boundaries.  (C compilers agree with rssl here: clang cites C99 5.1.1.2p4, GCC
+stops its look-ahead at the end of an included buffer.) -/
+theorem differs_invocation_spanning_file_boundary :
+    (preprocess (boundaryHandler boundaryMain) 10 [] "main").map prepare =
+      .ok (.ok [.id "F", .lparen, .int "1", .rparen]) ∧
+    (preprocess (boundaryHandler boundaryPasted) 10 [] "main").map prepare = .ok (.ok [.int "1"]) := by
+  have hd : doDefine [] (loc [.ws, .id "F", .lparen, .id "X", .rparen, .ws, .id "X"]) =
+      .ok [⟨"F", true, 1, loc [.arg 0]⟩] := by decide
+  have e1 : applyMacros [⟨"F", true, 1, loc [.arg 0]⟩] (loc [.id "F", .endline]) = .ok (loc [.id "F", .endline]) :=
+    model_eval 10 _ _ _ (by decide)
+  have e2 : applyMacros [⟨"F", true, 1, loc [.arg 0]⟩] (loc [.lparen, .int "1", .rparen, .endline]) =
+      .ok (loc [.lparen, .int "1", .rparen, .endline]) := model_eval 10 _ _ _ (by decide)
+  have e3 : applyMacros [⟨"F", true, 1, loc [.arg 0]⟩]
+      (loc [.id "F", .endline, .lparen, .int "1", .rparen, .endline]) = .ok (loc [.int "1", .endline]) :=
+    model_eval 10 _ _ _ (by decide)
+  constructor
+  · simp [preprocess, boundaryHandler, boundaryMain, boundaryHeader, runInitial, initialMacros, runFile, fileStart,
+      foldLines, stepLine, flush, applyMacros_nil, includeFile, eol, loc] at hd e1 e2 ⊢
+    simp [hd, e1, e2, applyMacros_nil, prepare, Except.map, Tok.isWhitespace]
+  · simp [preprocess, boundaryHandler, boundaryPasted, runInitial, initialMacros, runFile, fileStart, foldLines,
+      stepLine, flush, applyMacros_nil, eol, loc] at hd e3 ⊢
+    simp [hd, e3, prepare, Except.map, Tok.isWhitespace]
+
+end FileBoundary
+
 end RsslVerif.Thm.C12
